@@ -3,7 +3,7 @@
    function; a list comprehension that drops one index = comp_skip; Python's `x is not None` / `i == skip` on an optional
    index), with the lemmas the generated proofs use.  Universal statements; nothing here is specific to one run. *)
 From Coq Require Import List Arith ZArith Lia Bool.
-From TLV Require Import Base.Shape Base.PyList Base.Tensor Model.Base Model.Tenalg.
+From TLV Require Import Base.Shape Base.PyList Base.Tensor Model.Base Model.Tenalg Proofs.TenalgProofs Proofs.TenalgProofsValidate.
 Import ListNotations.
 
 Fixpoint fold_res {S X : Type} (step : S -> X -> res S) (l : list X) (st : S) : res S :=
@@ -103,4 +103,33 @@ Proof.
   destruct (Nat.eqb _ 0); [discriminate|]. destruct (Nat.eqb _ 0); [|discriminate].
   cbn. intros H; injection H as <-. eexists; reflexivity.
 Qed.
+
+(* Python indexing of a shape with an int that may be negative (IndexError when out of range); np.moveaxis in unfold / fold
+   resolves the mode the same way *)
+Definition py_nth_z (l : list nat) (z : Z) : res nat :=
+  match py_index (length l) z with Some k => Ok (nth k l 0) | None => Err end.
+Definition py_set_z (l : list nat) (z : Z) (v : nat) : res (list nat) :=
+  match py_index (length l) z with Some k => Ok (set_nth k v l) | None => Err end.
+Definition py_pop_z (l : list nat) (z : Z) : res (list nat) :=
+  match py_index (length l) z with Some k => Ok (remove_nth k l) | None => Err end.
+Definition unfold_z (T : tensor F) (z : Z) : res (tensor F) :=
+  match py_index (ndim T) z with Some k => unfold (r0 Op) T k | None => Err end.
+Definition fold_z (u : tensor F) (z : Z) (s : list nat) : res (tensor F) :=
+  match py_index (length s) z with Some k => fold (r0 Op) u k s | None => Err end.
+Lemma py_nth_z_some l z k : py_index (length l) z = Some k -> py_nth_z l z = Ok (nth k l 0).
+Proof. intros H. unfold py_nth_z. now rewrite H. Qed.
+Lemma py_nth_z_none l z : py_index (length l) z = None -> py_nth_z l z = Err.
+Proof. intros H. unfold py_nth_z. now rewrite H. Qed.
+Lemma py_nth_z_0 a l : py_nth_z (a :: l) 0%Z = Ok a.
+Proof. unfold py_nth_z. change 0%Z with (Z.of_nat 0). rewrite (py_index_nat (length (a :: l)) 0) by (cbn; lia). reflexivity. Qed.
+Lemma py_nth_z_1 a b l : py_nth_z (a :: b :: l) 1%Z = Ok b.
+Proof. unfold py_nth_z. change 1%Z with (Z.of_nat 1). rewrite (py_index_nat (length (a :: b :: l)) 1) by (cbn; lia). reflexivity. Qed.
+Lemma np_dot_mat (M U : tensor F) a b : shape M = [a; b] -> nrows U = b -> np_dot M U = Ok (matmul Op M U).
+Proof. intros Hs Hu. unfold np_dot. rewrite Hs, Hu, Nat.eqb_refl. reflexivity. Qed.
+Lemma np_dot_vec (v U : tensor F) a : shape v = [a] -> nrows U = a -> np_dot v U = Ok (vecmat Op v U).
+Proof. intros Hs Hu. unfold np_dot. rewrite Hs, Hu, Nat.eqb_refl. reflexivity. Qed.
+Lemma unfold_nrows (T U : tensor F) k : unfold (r0 Op) T k = Ok U -> nrows U = nth k (shape T) 0.
+Proof. intros H. destruct (unfold_shape2 T U k H) as [c E]. unfold nrows. now rewrite E. Qed.
 End Prims.
+Lemma rbind_ok_id {A} (x : res A) : rbind x (fun h => Ok h) = x.
+Proof. destruct x; reflexivity. Qed.
